@@ -390,6 +390,20 @@ def run_config(prop, cfg, known=(), max_paths=None, validate=True):
             out["aborted"] += 1
             return
         if kind == "concretised":
+            # the code asked for a concrete value of a symbolic number (int(x), float(x) that is used, ...): this path cannot
+            # be encoded.  Before giving up, replay a model of the path on the real code: if the property fails there, that
+            # is a violation with a concrete witness; otherwise the configuration stays inconclusive.
+            r0, m0 = ctx.model(env.nice) if env is not None and env.nice else ("unknown", None)
+            if r0 != "sat":
+                r0, m0 = ctx.model()
+            if r0 == "sat" and env is not None:
+                inputs = env._model_inputs(m0)
+                rc = run_concrete(prop, cfg, inputs, known)
+                if rc["outcome"] == "exc" or rc["failed"]:
+                    what = rc["exc"] if rc["outcome"] == "exc" else "; ".join(rc["detail"][:3])
+                    name = "exception:" + rc.get("exc_type", "") if rc["outcome"] == "exc" else rc["failed"][0]
+                    out["violations"].append(dict(obligation=name, inputs=inputs, observed=what, cfg=cfg))
+                    return
             out["errors"].append(f"not encodable: {payload}")
             return
         r, m = ctx.model(env.nice) if env is not None and env.nice and not os.environ.get("SYMX_NO_NICE") else ("unknown", None)
